@@ -6,6 +6,7 @@
   stands (witnesses below); proved: they agree on the decidable region `parseRegion`.
 -/
 import Gozod.Model.GenSplit
+import Gozod.Model.GenEmit
 set_option linter.unusedSimpArgs false
 set_option linter.unusedVariables false
 
@@ -141,6 +142,50 @@ example : (genSplit [0x72, 0x2C, 0x78, 0x3D, 0x5E, 0x5B, 0x61, 0x2D, 0x7A, 0x5D,
 
 /-! ### rule parser -/
 
+theorem dropWhile_snoc_keep (p : Nat → Bool) (a : Str) (c : Nat) (hc : p c = false) :
+    ∃ a', (a ++ [c]).dropWhile p = a' ++ [c] := by
+  induction a with
+  | nil => exact ⟨[], by simp [List.dropWhile, hc]⟩
+  | cons x a ih =>
+    by_cases hx : p x = true
+    · obtain ⟨a', h⟩ := ih
+      exact ⟨a', by simp [List.dropWhile, hx, h]⟩
+    · exact ⟨x :: a, by simp [List.dropWhile, hx]⟩
+
+theorem trimRight_head (c : Nat) (r : Str) (hc : isSpace c = false) : ∃ r', trimRight (c :: r) = c :: r' := by
+  unfold trimRight
+  obtain ⟨a', h⟩ := dropWhile_snoc_keep isSpace r.reverse c hc
+  refine ⟨a'.reverse, ?_⟩
+  rw [List.reverse_cons, h]; simp
+
+theorem trimLeft_head (s : Str) : trimLeft s = [] ∨ ∃ c r, trimLeft s = c :: r ∧ isSpace c = false := by
+  unfold trimLeft
+  induction s with
+  | nil => left; rfl
+  | cons x s ih =>
+    by_cases hx : isSpace x = true
+    · simpa [List.dropWhile, hx] using ih
+    · right; exact ⟨x, s, by simp [List.dropWhile, hx], by simpa using hx⟩
+
+theorem trimSpace_head (s : Str) : trimSpace s = [] ∨ ∃ c r, trimSpace s = c :: r ∧ isSpace c = false := by
+  unfold trimSpace
+  rcases trimLeft_head s with h | ⟨c, r, h, hc⟩
+  · left; rw [h]; rfl
+  · right
+    obtain ⟨r', h'⟩ := trimRight_head c r hc
+    exact ⟨c, r', by rw [h, h'], hc⟩
+
+/-- trimming a trimmed non-empty string leaves it non-empty -/
+theorem trimSpace_trimmed_ne (s : Str) (h : trimSpace s ≠ []) : trimSpace (trimSpace s) ≠ [] := by
+  rcases trimSpace_head s with h0 | ⟨c, r, hs, hc⟩
+  · exact absurd h0 h
+  · rw [hs]
+    have hl : trimLeft (c :: r) = c :: r := by simp [trimLeft, List.dropWhile, hc]
+    obtain ⟨r', h'⟩ := trimRight_head c r hc
+    unfold trimSpace
+    rw [hl, h']
+    simp
+
 /-- what `ParseTagString` keeps of a parsed rule -/
 def keep (r : Rule) : Option Rule := if r.name ≠ [] then some r else none
 
@@ -156,8 +201,8 @@ theorem part_agree (p : Str) (h : partRegion p = true) :
     simp only [hc]
     cases ok with
     | false =>
-      simp only [Bool.false_eq_true, if_false, bne_iff_ne, ne_eq] at h
-      simp [h, keep]
+      have hne := trimSpace_trimmed_ne p h0
+      simp [hne, keep]
     | true =>
       simp only [cSpace, ↓reduceIte, Bool.not_true, Bool.false_eq_true] at h ⊢
       simp only [Bool.and_eq_true, bne_iff_ne, ne_eq, Bool.or_eq_true, Bool.not_eq_true'] at h
@@ -226,5 +271,21 @@ example : parseRegion [0x72, 0x65, 0x71, 0x75, 0x69, 0x72, 0x65, 0x64, 0x2C, 0x6
 -- enum=a b,min=3
 example : genParseTag [0x65, 0x6E, 0x75, 0x6D, 0x3D, 0x61, 0x20, 0x62, 0x2C, 0x6D, 0x69, 0x6E, 0x3D, 0x33] =
     .ok [⟨[0x65, 0x6E, 0x75, 0x6D], some [[0x61], [0x62]]⟩, ⟨[0x6D, 0x69, 0x6E], some [[0x33]]⟩] := by decide
+
+/-- Inside the region the text gozodgen writes for a field is a function of the rules pkg/tagparser (so
+    FromStruct) reads from the tag: the generator's own parser adds nothing and loses nothing. -/
+theorem c13_emit_reads_tagparser (k : GenEmit.Kind) (ptr : Bool) (s : Str) (rs : List Rule)
+    (h : parseRegion s = true) (hp : parseTag false s = .ok rs) :
+    GenEmit.emitField k ptr s = GenEmit.emitRules k ptr rs := by
+  unfold GenEmit.emitField
+  rw [c13_parse_partial s h, hp]
+
+/-- consequence for order: two tags of the region that tagparser reads as the same rule list are
+    emitted identically (white space around rules and around `=` never reaches the generated code) -/
+theorem c13_emit_ws_invariant (k : GenEmit.Kind) (ptr : Bool) (s₁ s₂ : Str)
+    (h₁ : parseRegion s₁ = true) (h₂ : parseRegion s₂ = true) (hp : parseTag false s₁ = parseTag false s₂) :
+    GenEmit.emitField k ptr s₁ = GenEmit.emitField k ptr s₂ := by
+  unfold GenEmit.emitField
+  rw [c13_parse_partial s₁ h₁, c13_parse_partial s₂ h₂, hp]
 
 end Gozod.C13
